@@ -92,6 +92,8 @@ pub enum EOp {
     SetMirrorMode(bool),
     /// enumerate_selections with one of three predicates (select non-blank cells / deselect everything / toggle)
     EnumerateSelections(u8),
+    /// TheDrawFont::render of one glyph of the shipped TDF font at the caret (font index, character code)
+    RenderTdfGlyph(u8, u8),
 }
 
 impl EOp {
@@ -221,6 +223,17 @@ fn apply(st: &mut EditState, op: &EOp) -> Result<(), String> {
         EOp::SetMirrorMode(on) => {
             st.set_mirror_mode(*on);
             Ok(())
+        }
+        EOp::RenderTdfGlyph(fi, code) => {
+            static FONTS: std::sync::OnceLock<Vec<icy_engine::TheDrawFont>> = std::sync::OnceLock::new();
+            let fonts = FONTS.get_or_init(|| icy_engine::TheDrawFont::from_tdf_bytes(crate::files::TDF_FONT).unwrap_or_default());
+            if fonts.is_empty() {
+                return Err("no TDF font".into());
+            }
+            match fonts[*fi as usize % fonts.len()].render(st, *code) {
+                Some(_) => Ok(()),
+                None => Err("no such glyph".into()),
+            }
         }
         EOp::EnumerateSelections(m) => {
             match m % 3 {
@@ -726,7 +739,7 @@ fn layer_idx(rng: &mut Rng) -> usize {
 }
 
 pub fn gen_op(rng: &mut Rng) -> EOp {
-    match rng.usize(73) {
+    match rng.usize(74) {
         58 => EOp::SetSauceFont(rng.usize(40)),
         59 => EOp::AddFont(rng.below(8) as u8),
         60 => EOp::SetFont(rng.below(8) as u8),
@@ -742,6 +755,7 @@ pub fn gen_op(rng: &mut Rng) -> EOp {
         70 => EOp::SetIceMode(rng.usize(3) as u8),
         71 => EOp::SetMirrorMode(rng.bool()),
         72 => EOp::EnumerateSelections(rng.below(3) as u8),
+        73 => EOp::RenderTdfGlyph(rng.below(8) as u8, *rng.pick(&[65u8, 66, 97, 33, 48, 126, 32])),
         0 | 1 => EOp::SetCurrentLayer(layer_idx(rng)),
         2 | 3 => {
             let p = pos(rng);
@@ -880,6 +894,7 @@ fn alphabet() -> Vec<EOp> {
         EOp::UndoCaretPosition,
         EOp::SetMirrorMode(true),
         EOp::EnumerateSelections(0),
+        EOp::RenderTdfGlyph(0, 65),
     ]
 }
 
@@ -994,7 +1009,7 @@ impl Prop for C08 {
         "C08"
     }
     fn rule(&self) -> &'static str {
-        "a history is a sequence of public EditState operations (set/swap char, add/remove/raise/lower/duplicate/clear/merge/toggle/move/resize layer, resize buffer with and without layers, crop, selection set/clear/add-to-mask/inverse, erase, flip x/y, justify, center, insert/delete row and column, erase row/column, scroll area, rotate, make transparent, stamp down, paste (clipboard cells and sixel images) and anchor, floating layers, layer properties, ice/palette mode, palette replacement, SAUCE data and font changes (ANSI / SAUCE / custom fonts set and added, font usage replaced, font slots moved and removed), plus current-layer / caret / mirror-mode changes and enumerate_selections) on a 12x8 document of 1..=3 layers (alpha, offset, hidden, locked; every font mode, ice mode and palette mode, up to three fonts with cells on pages 0/1/5, bright backgrounds and blinking cells, shade / half-block / solid glyphs, custom palettes, with and without SAUCE). After every operation that returns Ok the harness records (undo stack length, snapshot of buffer size, modes, palette, fonts, SAUCE and per layer order, properties, size, offset, default font page and every cell TextPane::get_char shows within the layer's size; content hidden by a smaller size becomes observable, and is then compared, when a later undo grows the size back). It then undoes everything (undo must return Ok, never panic, shrink the stack; at every length that equals an operation boundary the snapshot of that boundary must be back), redoes everything (same check, final snapshot), does both rounds a second time (a record must survive being undone and redone repeatedly), takes a random undo/redo walk, and checks that a new edit after an undo (set_char or an operation drawn from the whole alphabet that records an undo entry) clears the redo history. Exhaustive: all histories of length 1 and 2 over a 70-operation instantiated alphabet on 3 documents (length 3: thorough complete, quick sampled); random histories up to length 40. An operation that returns Err ends the history; one that panics is outside C08 (counted). distinct_nontrivial = distinct (op-kind sequence, undo depth) histories that changed the document"
+        "a history is a sequence of public EditState operations (set/swap char, add/remove/raise/lower/duplicate/clear/merge/toggle/move/resize layer, resize buffer with and without layers, crop, selection set/clear/add-to-mask/inverse, erase, flip x/y, justify, center, insert/delete row and column, erase row/column, scroll area, rotate, make transparent, stamp down, paste (clipboard cells and sixel images) and anchor, floating layers, layer properties, ice/palette mode, palette replacement, SAUCE data and font changes (ANSI / SAUCE / custom fonts set and added, font usage replaced, font slots moved and removed), plus current-layer / caret / mirror-mode changes, enumerate_selections and TheDraw glyph rendering) on a 12x8 document of 1..=3 layers (alpha, offset, hidden, locked; every font mode, ice mode and palette mode, up to three fonts with cells on pages 0/1/5, bright backgrounds and blinking cells, shade / half-block / solid glyphs, custom palettes, with and without SAUCE). After every operation that returns Ok the harness records (undo stack length, snapshot of buffer size, modes, palette, fonts, SAUCE and per layer order, properties, size, offset, default font page and every cell TextPane::get_char shows within the layer's size; content hidden by a smaller size becomes observable, and is then compared, when a later undo grows the size back). It then undoes everything (undo must return Ok, never panic, shrink the stack; at every length that equals an operation boundary the snapshot of that boundary must be back), redoes everything (same check, final snapshot), does both rounds a second time (a record must survive being undone and redone repeatedly), takes a random undo/redo walk, and checks that a new edit after an undo (set_char or an operation drawn from the whole alphabet that records an undo entry) clears the redo history. Exhaustive: all histories of length 1 and 2 over a 71-operation instantiated alphabet on 3 documents (length 3: thorough complete, quick sampled); random histories up to length 40. An operation that returns Err ends the history; one that panics is outside C08 (counted). distinct_nontrivial = distinct (op-kind sequence, undo depth) histories that changed the document"
     }
     fn meta(&self, ctx: &Ctx) -> Value {
         json!({"floor_evaluations": 5000, "floor_distinct": ctx.tier.pick(2000u64, 50000u64),
